@@ -168,4 +168,11 @@ theorem verifyParts_shifted {P : Type} [AddCommGroup P] (o : Ops P) (law : Lawfu
   rw [this]
   simp
 
+theorem outputOf_append {P : Type} (gb cb sb : Bytes) (hg : gb.length = 32) (hc : cb.length = 16)
+    (hs : sb.length = 32) (_o : Ops P) : outputOf (gb ++ cb ++ sb) = gb := by
+  unfold outputOf
+  rw [pad_of_len_ge _ (by simp [proveSize, hg, hc, hs]), List.append_assoc]
+  exact List.take_left' hg
+
+
 end Rangers.Proofs.C16Vrf
